@@ -219,6 +219,19 @@ func (g *rnsGen) pickName() string {
 			}
 		}
 	}
+	// a record addressed as a name of its own, `record.name.tld` (the Name query resolves these; no message may)
+	if g.r.Intn(100) < 9 {
+		var withSubs []rnstypes.Names
+		for _, n := range g.c.A.RnsKeeper.GetAllNames(g.c.Ctx()) {
+			if len(n.Subdomains) > 0 {
+				withSubs = append(withSubs, n)
+			}
+		}
+		if len(withSubs) > 0 {
+			n := withSubs[g.r.Intn(len(withSubs))]
+			return n.Subdomains[g.r.Intn(len(n.Subdomains))].Name + "." + n.Name + "." + n.Tld
+		}
+	}
 	// bias towards names that exist
 	if g.r.Intn(100) < 50 {
 		names := g.c.A.RnsKeeper.GetAllNames(g.c.Ctx())
@@ -348,6 +361,13 @@ func (g *rnsGen) next() (sdk.Msg, map[string]interface{}) {
 		creator := g.actorFor(ln)
 		rec := []string{"sub", "Foo", "www", "a.b"}[r.Intn(4)]
 		val := []string{creator, "1.2.3.4", "plain"}[r.Intn(3)]
+		if r.Intn(3) == 0 {
+			// a record labelled like somebody's registered name, pointing at the record's creator
+			if all := g.c.A.RnsKeeper.GetAllNames(g.c.Ctx()); len(all) > 0 {
+				rec = all[r.Intn(len(all))].Name
+				val = creator
+			}
+		}
 		data := "{}"
 		return &rnstypes.MsgAddRecord{Creator: creator, Name: nm, Record: rec, Value: val, Data: data},
 			map[string]interface{}{"addRecord": map[string]interface{}{"creator": creator, "rawName": nm, "lname": ln, "record": rec, "recordLower": strings.ToLower(rec), "value": val, "data": data}}
